@@ -880,7 +880,7 @@ pub fn run_tower(prop: Prop, h: &History, st: &mut Stats) -> Outcome {
                         Op::FillRect { rect, .. } => crate::geo::first_impossible(cov, &rect_path(rect[0].0, rect[1].0, rect[2].0, rect[3].0), &t, w, hh),
                         Op::DrawImageAt { x, y, img, .. } => crate::geo::first_impossible(cov, &rect_path(x.0, y.0, img.w as f32, img.h as f32), &t, w, hh),
                         Op::DrawImageSized { w: rw, h: rh, x, y, .. } => crate::geo::first_impossible(cov, &rect_path(x.0, y.0, rw.0, rh.0), &t, w, hh),
-                        Op::Stroke { path, style, .. } => crate::geo::first_impossible_stroke(cov, &mk::build_path(path), style.width.0, style.miter_limit.0, &t, w, hh),
+                        Op::Stroke { path, style, .. } => crate::geo::first_impossible_stroke(cov, &mk::build_path(path), style.width.0, style.miter_limit.0, style.cap % 3 == 1, style.join % 3 == 1, &t, w, hh),
                         _ => None,
                     };
                     if let Some(d) = bad {
